@@ -802,18 +802,89 @@ def key_holder_dispatch(ctx, col: Collector, rule: str):
                 parts = cnd.values if isinstance(cnd, ast.BoolOp) and isinstance(cnd.op, ast.Or) else [cnd]
                 for part in parts:
                     clauses.append((part, rv))
-    if not clauses:
-        raise Unrecognised('get_references_for_sql does not select from model.database.refs in a recognised form', fi.node)
     seen: Dict[str, List[str]] = {}
+    # loop forms (`for ref in refs: ... out.append(ref)`, also grouped: `G[KEY].append(ref)` / `G.setdefault(KEY, []).append(ref)` ... `return G.get(Q)`): the loop body is
+    # evaluated once per kind (sa/peval.py: tests on the kind decided, locals followed) and what is left of the conditions of the append is read
+    floops = [n for n in ast.walk(fi.node) if isinstance(n, ast.For) and norm(n.iter) == f'{p}.database.refs' and isinstance(n.target, ast.Name)]
+    if floops:
+        from ..peval import run as _prun
+        loop_ = floops[0]
+        rv = loop_.target.id
+        # what the function returns: a local list, or a lookup in a local grouping
+        ret_q = {}
+        for r_ in walk_no_nested(fi.node):
+            if isinstance(r_, ast.Return) and r_.value is not None:
+                v_ = r_.value
+                if isinstance(v_, ast.Call) and isinstance(v_.func, ast.Attribute) and v_.func.attr == 'get' and isinstance(v_.func.value, ast.Name) and v_.args:
+                    ret_q[v_.func.value.id] = v_.args[0]
+                elif isinstance(v_, ast.Subscript) and isinstance(v_.value, ast.Name):
+                    ret_q[v_.value.id] = v_.slice
+        for k in sorted(consts):
+            tr = _prun(fi.node, f'{rv}.type', k, inside=loop_.body)
+            verdicts = []           # (how, side, shown)
+            for c in tr.calls:
+                if not (isinstance(c.func, ast.Attribute) and c.func.attr == 'append' and c.args and norm(c.args[0]) == rv):
+                    continue
+                recv = c.func.value
+                conds = next((cs for r0, v0, cs in tr.appended if r0 == norm(recv) and norm(v0) == rv), [])
+                key = None
+                g_ = None
+                if isinstance(recv, ast.Subscript) and isinstance(recv.value, ast.Name):
+                    g_, key = recv.value.id, recv.slice
+                elif isinstance(recv, ast.Call) and isinstance(recv.func, ast.Attribute) and recv.func.attr == 'setdefault' and isinstance(recv.func.value, ast.Name) and recv.args:
+                    g_, key = recv.func.value.id, recv.args[0]
+                if key is not None:
+                    q_ = ret_q.get(g_)
+                    kt = norm(key)
+                    side = next((sd for sd in ('1', '2') if kt.startswith(f'{rv}.table{sd}')), None)
+                    if q_ is None:
+                        verdicts.append(('?', side, f'grouped by `{kt}`, lookup not found'))
+                    elif side and kt == f'{rv}.table{side}' and norm(q_) == p:
+                        verdicts.append(('object', side, f'grouped by `{kt}`'))
+                    elif side and kt.startswith(f'{rv}.table{side}.') and kt.split('.')[-1] in ('name', 'full_name') and norm(q_) == f'{p}.{kt.split(".")[-1]}':
+                        verdicts.append(('name' if kt.endswith('.name') else 'object-like', side, f'grouped by `{kt}` and looked up by `{norm(q_)}`'))
+                    else:
+                        verdicts.append(('?', side, f'grouped by `{kt}` and looked up by `{norm(q_)}`'))
+                    continue
+                # plain list: the residual conditions decide
+                lits_ = [l for cnd in conds for l in conjuncts(term(cnd, True))]
+                found = None
+                for l in lits_:
+                    if l[0] in ('eq', 'is') and len(l) == 3:
+                        for sd in ('1', '2'):
+                            if {l[1], l[2]} == {f'{rv}.table{sd}', p}:
+                                found = ('object', sd, f'`{rv}.table{sd}` compared with `{p}`')
+                            elif {l[1], l[2]} == {f'{rv}.table{sd}.name', f'{p}.name'}:
+                                found = found or ('name', sd, f'`{rv}.table{sd}.name == {p}.name`')
+                if found is None:
+                    found = ('all', None, 'no test on the table at all') if not [l for l in lits_ if l[0] != 'not' or True] else ('?', None, f'conditions {[norm(c_) for c_ in conds][:2]}')
+                verdicts.append(found)
+            if not verdicts:
+                continue
+            how, side, shown = verdicts[0]
+            seen.setdefault(k, []).append(side or '?')
+            cons_ = f'get_references_for_sql:{k}:compares-tables'
+            if how == 'object':
+                col.ok(rule, cons_, f'`{consts.get(k, k)}`: the rendered table is compared with ref.table{side} as an object ({shown})', node=fi.node, file=fi.file)
+            elif how == 'name':
+                col.bad(rule, cons_, f'for `{consts.get(k, k)}` references get_references_for_sql decides ownership by NAME ({shown}) instead of comparing the table objects: tables '
+                        f'that share a name (in different schemas) both claim the reference', node=fi.node, file=fi.file)
+            elif how == 'all':
+                col.bad(rule, cons_, f'for `{consts.get(k, k)}` references every table lists the reference ({shown})', node=fi.node, file=fi.file)
+            else:
+                col.unk(rule, cons_, f'for `{consts.get(k, k)}` references the ownership test could not be read ({shown})', node=fi.node, file=fi.file)
+        clauses = []
+    elif not clauses:
+        raise Unrecognised('get_references_for_sql does not select from model.database.refs in a recognised form', fi.node)
     # the selection is the disjunction of the clauses; evaluated once per kind constant with every test on `<ref>.type` decided by that kind (sa/peval.py),
     # what is left over must be "ref.table<N> is the rendered table" (or nothing, for a kind the table never lists)
     from ..peval import residual
     rvs = {rv for _, rv in clauses}
-    if len(rvs) != 1:
+    if clauses and len(rvs) != 1:
         raise Unrecognised('get_references_for_sql selects with several loop variables', fi.node)
-    rv = next(iter(rvs))
-    whole = clauses[0][0] if len(clauses) == 1 else ast.BoolOp(op=ast.Or(), values=[t for t, _ in clauses])
-    for k in sorted(consts):
+    rv = next(iter(rvs)) if rvs else ''
+    whole = (clauses[0][0] if len(clauses) == 1 else ast.BoolOp(op=ast.Or(), values=[t for t, _ in clauses])) if clauses else None
+    for k in (sorted(consts) if clauses else []):
         r = residual(whole, f'{rv}.type', k)
         if isinstance(r, ast.Constant) and r.value is False:
             continue
@@ -838,6 +909,10 @@ def key_holder_dispatch(ctx, col: Collector, rule: str):
                   f'table objects: tables that share a name (in different schemas) both claim the reference', node=fi.node, file=fi.file)
     for k, hside in sorted(holders.items()):
         got = seen.get(k, [])
+        if '?' in got:
+            col.unk(rule, f'get_references_for_sql:{k}:key-holder', f'`{consts.get(k, k)}`: cannot read which side of the reference get_references_for_sql compares with the table',
+                    node=fi.node, file=fi.file)
+            continue
         col.check(got == [hside], rule, f'get_references_for_sql:{k}:key-holder',
                   f'`{consts.get(k, k)}` references are owned by table{hside} only (same side as the FOREIGN KEY dispatch)',
                   f'`{consts.get(k, k)}` references are assigned to table sides {got or "none"} by get_references_for_sql while render_reference puts the '
